@@ -172,19 +172,19 @@ class Exec:
             tags = st.ghost.get("inv_tags", {})
             pc = [f for f in pc if not (is_z3(f) and f.get_id() in tags and tags[f.get_id()][1].eq(f) and tags[f.get_id()][0] not in keep_invs)]
         hyps = pc + gfs
-        if gfs and is_z3(goal):
-            # safety net: a global fact must not mention (as a free constant) something that a quantifier elsewhere in
-            # this obligation binds -- that would be a definition made under a binder the engine did not register
-            fc = set()
-            for f in gfs:
-                fc |= free_consts(f)
+        if is_z3(goal):
+            # safety net: no formula of this obligation may mention, as a free constant, a name that a quantifier of the
+            # obligation binds -- that would be a value or definition created while a closure was evaluated at a bound
+            # variable (e.g. a callee contract applied inside an element map under a quantifier) and then leaked
+            fc = set(free_consts(goal))
             bn = set(bound_names(goal))
             for f in hyps:
                 if is_z3(f):
+                    fc |= free_consts(f)
                     bn |= bound_names(f)
             clash = fc & bn
             if clash:
-                raise Unsupported("definition made under an unregistered binder: %s" % sorted(clash)[:3])
+                raise Unsupported("value created under a quantifier's bound variable leaks: %s" % sorted(clash)[:3])
         split = (info or {}).get("split_on")
         if expect == "unsat" and is_z3(goal):
             extra, goal, consts = skolemize(goal)
@@ -926,6 +926,10 @@ class Exec:
         is_gen = any(isinstance(n, (ast.Yield, ast.YieldFrom)) for n in ast.walk(fnode))
         if c is not None and not c.inline and not (self.map_depth and not is_gen and not c.trusted and not c.loops) \
                 and not (self.ctx.bounded is not None and not is_gen and not c.trusted and not fnode.decorator_list):
+            if decos and not c.trusted and not c.ghost.get("decorated"):
+                # a contract verified against the body of a decorated function says nothing about the decorated function
+                # unless it states (ghost `decorated`) why the decorator is the identity under its precondition
+                raise Unsupported("contract of decorated function %s (%s) lacks a `decorated` justification" % (key, decos))
             return self.apply_contract(c, fnode, args, kwargs, st, node)
         if decos:
             raise Unsupported("inlining decorated function %s (%s) needs a contract" % (key, decos))
@@ -1247,7 +1251,7 @@ class Exec:
         v = n.value
         if isinstance(v, ast.Constant):
             return [st]   # docstring
-        if isinstance(v, ast.Call) and ast.unparse(v.func).startswith(("logging.", "warnings.warn")):
+        if isinstance(v, ast.Call) and ast.unparse(v.func).startswith(("logging.", "warnings.warn", "warnings.simplefilter")):
             self.ctx.dropped.append("%s:%d logging call" % (self.fr.key, n.lineno))
             return [st]
         if isinstance(v, ast.Yield):
